@@ -1,4 +1,6 @@
 mod ast;
+mod binrun;
+mod lex;
 mod auto;
 mod corpus;
 mod enumr;
@@ -21,6 +23,10 @@ fn main() {
         std::process::exit(2);
     }
     pipe::install_quiet_panic_hook();
+    if args[1] == "c06-worker" {
+        props::c06::worker_main(&args[2], &args[3]);
+        return;
+    }
     if args[1] == "debug-corpus" {
         debug_time_corpus();
         return;
@@ -37,6 +43,7 @@ fn main() {
         "C02" => props::c02::run(tier),
         "C03" => props::c03::run(tier),
         "C05" => props::c05::run(tier),
+        "C06" => props::c06::run(tier),
         "C08" => props::c08::run(tier),
         "C09" => props::c09::run(tier),
         "C11" => props::c11::run(tier),
